@@ -355,6 +355,7 @@ func checkC06(raw json.RawMessage) iso.Result {
 		state := "vcl_recv"
 		recvDecision := ""
 		lookups := 0
+		attemptLookup := false // the attempt that produced the response (after the last restart) did a lookup
 		lastBranch := ""
 		passPath := false
 		expectErrorEnd := false
@@ -419,6 +420,7 @@ func checkC06(raw json.RawMessage) iso.Result {
 				}
 				restarts++
 				state = "vcl_recv"
+				attemptLookup = false
 				col.Res.NonTrivial = true
 				continue
 			}
@@ -431,6 +433,7 @@ func checkC06(raw json.RawMessage) iso.Result {
 					return "vcl_pass"
 				}
 				lookups++
+				attemptLookup = true
 				switch cache[key] {
 				case cStored:
 					lastBranch = "vcl_hit"
@@ -507,7 +510,9 @@ func checkC06(raw json.RawMessage) iso.Result {
 			// cached / X-Cache name the branch taken (only when exactly one lookup happened and nothing passed)
 			// (also after vcl_hit / vcl_miss returned pass: the lookup still took that branch;
 			// only requests passed in vcl_recv have no lookup at all)
-			if lookups == 1 && recvDecision != "pass" && rep.Error == "" {
+			// (and the lookup belongs to the attempt that produced the response: after a restart that ends in
+			// vcl_recv -> vcl_error the response never saw the cache)
+			if lookups == 1 && attemptLookup && recvDecision != "pass" && rep.Error == "" {
 				if passPath {
 					col.Label("checked:cached+x-cache-after-pass")
 				}
